@@ -100,6 +100,9 @@ func JSONWriteDurationProp(b *[]byte, n string, d time.Duration) (notEmpty bool)
 }
 
 func JSONWriteIRIProp(b *[]byte, n string, i LinkOrIRI) (notEmpty bool) {
+	if IsNil(i) {
+		return false
+	}
 	url := i.GetLink().String()
 	if len(url) == 0 {
 		return false
@@ -109,7 +112,7 @@ func JSONWriteIRIProp(b *[]byte, n string, i LinkOrIRI) (notEmpty bool) {
 }
 
 func JSONWriteItemProp(b *[]byte, n string, i Item) (notEmpty bool) {
-	if i == nil {
+	if IsNil(i) {
 		return notEmpty
 	}
 	if im, ok := i.(json.Marshaler); ok {
@@ -156,6 +159,9 @@ func JSONWriteItemCollectionValue(b *[]byte, col ItemCollection, compact bool) (
 	}
 	if len(col) == 1 && compact {
 		it := col[0]
+		if IsNil(it) {
+			return false
+		}
 		im, ok := it.(json.Marshaler)
 		if !ok {
 			return false
@@ -178,6 +184,9 @@ func JSONWriteItemCollectionValue(b *[]byte, col ItemCollection, compact bool) (
 	JSONWrite(b, '[')
 	skipComma := true
 	for _, it := range col {
+		if IsNil(it) {
+			continue
+		}
 		im, ok := it.(json.Marshaler)
 		if !ok {
 			continue
